@@ -398,7 +398,9 @@ func pbDerefRule(r *Report, p *Prog) {
 		if !ok || nt.Obj().Pkg() == nil {
 			return false
 		}
-		return strings.HasPrefix(nt.Obj().Pkg().Path(), "deps.dev/api/") && strings.HasPrefix(nt.Obj().Name(), "Requirements")
+		// every generated message of the API packages (responses of all RPCs, not only Requirements)
+		_, isStruct := nt.Underlying().(*types.Struct)
+		return strings.HasPrefix(nt.Obj().Pkg().Path(), "deps.dev/api/") && isStruct
 	}
 	n, nGetter := 0, 0
 	for _, f := range pk.Syntax {
